@@ -25,9 +25,9 @@ and the tabular form:
   sequence.py    : score_to_sequence / sequence_to_score (row encoding; pandas' sort and groupby
                    are parameters of the model, see `fromRows`)
 
-Function for function, in the code's shape, on the repaired tree (fix commits bbbdf5d pattern-note
-octave, 0a31493 drum dynamics, e90a01c mode / accidental of drum and pattern notes + `.set_amp(0)`,
-14f203b figure '5', 6fc8934 split in front of custom chords).  Python's parsing of the text into
+Function for function, in the code's shape, on the repaired tree (fix commits 3b164a5 pattern-note
+octave, bb99a14 drum dynamics, 5da6dce mode / accidental of drum and pattern notes + `.set_amp(0)`,
+814ef78 figure '5', b066a4a split in front of custom chords).  Python's parsing of the text into
 the attribute chain is *not* modelled (trusted; tied by the correspondence streams `print` / `ops`).
 
 Modelling notes
